@@ -366,6 +366,7 @@ pub enum AliasSyntaxError {
     UnexpectedEol(AliasToken, char),
     UnbalancedIO(Vec<AliasItem>),
     PlusInDerom(AliasPosition),
+    BoundInDerom(AliasPosition),
 }
 
 impl From<AliasSyntaxError> for Error {
@@ -408,6 +409,7 @@ impl ASCAError for AliasSyntaxError {
             Self::UnexpectedEol(token, ch) => format!("Expected `{ch}`, but received End of Line @ {}", token.position),
             Self::UnbalancedIO(_) => "Input or Output has too few elements ".to_string(),
             Self::PlusInDerom(_) => "Deromaniser rules currently do not support addition".to_string(),
+            Self::BoundInDerom(_) => "Deromaniser rules currently do not allow syllable boundaries to be specified or inserted".to_string(),
         }
     }
 
@@ -436,6 +438,7 @@ impl ASCAError for AliasSyntaxError {
                 *line,
             ),
             Self::PlusInDerom          (pos) |
+            Self::BoundInDerom         (pos) |
             Self::UnknownFeature    (_, pos) |
             Self::UnknownEnbyFeature(_, pos) => (
                 " ".repeat(pos.start) + &"^".repeat(pos.end-pos.start) + "\n", 
